@@ -26,6 +26,7 @@ fn make_target(c: &Cfg, rng: &mut HRng) -> Target {
         "scaled" => Target::scaled(rng, d, 1e3), // condition number 1e6 in variance
         "correlated" => Target::correlated(rng, d.min(50), 100.0),
         "ar1" => Target::ar1(d.min(50), 0.9),
+        "scaled_correlated" => Target::scaled_correlated(rng, d.min(50), 25.0, 1e4),
         "student_t" => Target::StudentT { nu: 7.0, mu: (0..d).map(|_| rng.range(-2.0, 2.0)).collect(), sigma: (0..d).map(|_| rng.log_range(0.3, 3.0)).collect() },
         _ => Target::Gumbel { mu: (0..d).map(|_| rng.range(-2.0, 2.0)).collect(), beta: (0..d).map(|_| rng.log_range(0.3, 3.0)).collect() },
     }
@@ -33,7 +34,7 @@ fn make_target(c: &Cfg, rng: &mut HRng) -> Target {
 
 fn configs(thorough: bool) -> Vec<Cfg> {
     let mut v = vec![];
-    let targets = ["iso", "scaled", "correlated", "ar1", "student_t", "gumbel"];
+    let targets = ["iso", "scaled", "correlated", "ar1", "student_t", "gumbel", "scaled_correlated"];
     let dims: &[usize] = if thorough { &[1, 2, 10, 50, 100] } else { &[1, 2, 10, 50] };
     let mut idx = 0;
     for preset in [Preset::DiagNuts, Preset::LowRankNuts] {
@@ -46,7 +47,11 @@ fn configs(thorough: bool) -> Vec<Cfg> {
                         if !thorough && false {
                             continue;
                         }
-                        v.push(Cfg { preset, kind, method, target, dim, idx });
+                        // the per-configuration random stream must not depend on the tier's list of dimensions
+                        let mut h = crate::util::Fnv::new();
+                        h.str(preset.name()).str(kind).str(method).str(target).u64(dim as u64);
+                        let _ = idx;
+                        v.push(Cfg { preset, kind, method, target, dim, idx: h.finish() >> 16 });
                     }
                 }
             }
@@ -229,7 +234,7 @@ fn run_config(c: &Cfg, seed: u64, n_chains: usize, draws: usize, observe_momentu
 
 pub fn run(args: &Args, report: &mut Report) {
     report.rule = "configurations = {Diag, LowRank} x {Euclidean, ExactNormal} x {DualAverage, Adam} x targets {iso, scaled (cond 1e6), correlated, AR(1), \
-        Student-t, Gumbel} x dims {1,2,10,50(,100)} with default settings, several chains each; post-warmup means, variances and 10/50/90% quantile \
+        Student-t, Gumbel, correlated with unequal scales} x dims {1,2,10,50(,100)} with default settings, several chains each; post-warmup means, variances and 10/50/90% quantile \
         coverage are z-tested (batch-means standard errors, |z| > 7.5 flags) and every flag must be confirmed on three fresh seeds with 4x the draws \
         and the same sign; momentum draws of one chain per configuration are tested for N(0,I) (mean, variance, kurtosis, KS), lag-1 and position \
         correlation; distinct = configuration".into();
@@ -238,7 +243,16 @@ pub fn run(args: &Args, report: &mut Report) {
     let seed = args.seed ^ 0xC04;
     let thorough = report.thorough();
     let cfgs: Vec<Cfg> = if let Some(r) = &args.replay {
-        configs(true).into_iter().filter(|c| c.idx == r["idx"].as_u64().unwrap()).collect()
+        configs(true)
+            .into_iter()
+            .filter(|c| {
+                c.preset.name() == r["preset"].as_str().unwrap()
+                    && c.kind == r["kind"].as_str().unwrap()
+                    && c.method == r["method"].as_str().unwrap()
+                    && c.target == r["target"].as_str().unwrap()
+                    && c.dim as u64 == r["dim"].as_u64().unwrap()
+            })
+            .collect()
     } else {
         configs(thorough)
     };
